@@ -8,8 +8,11 @@ pub mod wire;
 pub mod c05;
 pub mod c12;
 pub mod c13;
+pub mod c14;
+pub mod c16;
 pub mod c07;
 pub mod c08;
+pub mod c09;
 pub mod c10;
 pub mod c11;
 
@@ -31,10 +34,13 @@ pub fn run(ctx: &Ctx) -> bool {
         "C05" => c05::run(ctx),
         "C06" => c06::run(ctx),
         "C07" => c07::run(ctx),
+        "C09" => c09::run(ctx),
         "C10" => c10::run(ctx),
         "C11" => c11::run(ctx),
         "C12" => c12::run(ctx),
         "C13" => c13::run(ctx),
+        "C14" => c14::run(ctx),
+        "C16" => c16::run(ctx),
         "C08" => c08::run(ctx),
         _ => return false,
     }
